@@ -15,7 +15,9 @@ TRUSTED = ["extraction: ExtrOcamlBasic only; OCaml 4.13.1; comp/locks/guard_driv
            "oracle: hold counters inside the instrumented mutex vs. the guards' own protects()/is_locked() claims"]
 ASSUMPTIONS = ["a guard's mutex outlives the guard (reference parameter)",
                "lock() on a default-constructed/moved-from guard dereferences a null _mutex: modelled as UB and excluded (precondition)",
-               "an adopted lock is counted as an acquisition at adoption"]
+               "an adopted lock is counted as an acquisition at adoption",
+               "weak-memory ticket theorems: no load returns a message 2^32 - n or more messages behind the last one "
+               "(stale_bounded; needed only because of the uint32 wrap); n < 2^32 threads"]
 
 
 def guard_nontrivial(cid, lines, ri):
